@@ -113,7 +113,7 @@ AllShapes1 == {"s.ref", "s.pre", "l.ref", "l.litref", "l.instr", "l.quoted", "p.
                "t.ref", "t.filt", "t.lm", "g.ref", "g.arg", "n.ref", "n.tm", "n.im", "i.ref", "i.int",
                "c.name", "c.ref", "f.ref", "f.tm", "k.ref", "k.sel", "o.name", "o.ref", "x.ref", "x.str"}
 AllShapes2 == {"s.two", "l.two", "p.relcomp", "m.or", "t.seq", "g.tt", "g.in"}
-AllCtxs    == {"data", "comp", "compn", "relsym", "pre", "int", "range", "env", "pname", "fname", "tm", "tt", "pgm", "lm", "im",
+AllCtxs    == {"data", "comp", "compn", "compp", "relsym", "pre", "int", "range", "env", "pname", "fname", "tm", "tt", "pgm", "lm", "im",
                "fc", "fm", "fsm", "fs", "ts"}
 ActCtxs    == {"data", "pname", "pgm"}      \* what the line of [act] (actor "command line") can be made of here
 
@@ -135,7 +135,7 @@ TypeOf(sh) == CASE sh \in {"s.lit", "s.ref", "s.pre", "s.two", "s.builtin"} -> "
 \* the restriction on each reference slot of a shape / of a context
 Restr(sh) == CASE sh \in {"s.ref", "s.pre", "l.ref", "l.litref", "l.instr", "l.quoted", "m.eq", "g.arg", "x.str", "data"} -> <<"data">>
                [] sh \in {"s.two", "l.two"} -> <<"data", "data">>
-               [] sh \in {"p.comp", "i.int", "c.name", "o.name", "comp", "compn", "int", "range", "env", "pname", "fname"}
+               [] sh \in {"p.comp", "i.int", "c.name", "o.name", "comp", "compn", "compp", "int", "range", "env", "pname", "fname"}
                     -> <<"strict">>
                [] sh \in {"p.rel", "relsym"} -> <<"path">>
                [] sh \in {"p.pre", "pre"} -> <<"pos">>
@@ -496,6 +496,9 @@ Expect(ins) ==
     [] c = "comp"   -> [Blank EXCEPT !.k = "dir", !.root = "tmp", !.comps = <<Str(x)>>]
     \* a path WITHOUT a relativity option whose reference is not its first part: q/@[X]@
     [] c = "compn"  -> [Blank EXCEPT !.k = "dir", !.root = "act", !.comps = <<<<"q">>, Str(x)>>]
+    \* ... and one whose FIRST part is a reference to a path symbol (the builtin for the act directory): the
+    \* following parts are path components all the same
+    [] c = "compp"  -> [Blank EXCEPT !.k = "dir", !.root = "act", !.comps = <<Str(x)>>]
     [] c = "relsym" -> [Blank EXCEPT !.k = "dir", !.root = PathRoot(Val(x).root), !.comps = Val(x).comps]
     [] c = "pre"    -> IF ED(x).type = "path"
                        THEN [Blank EXCEPT !.k = "dir", !.root = PathRoot(Val(x).root), !.comps = Val(x).comps]
